@@ -98,6 +98,14 @@ class Interp:
                 if tname == "int":
                     return [(g, Val("bool", z3.BoolVal(v.kind == "int")))]
                 raise Unsupported("isinstance type %s" % tname)
+            if fname == "float" and len(node.args) == 1:
+                out = []
+                for g, v in self.ev(node.args[0], env):
+                    if isinstance(v, PyRaise):
+                        out.append((g, v))
+                    else:
+                        out.extend(self.to_float(v, g))
+                return out
             if fname == "int" and len(node.args) == 1:
                 out = []
                 for g, v in self.ev(node.args[0], env):
@@ -292,12 +300,19 @@ class Interp:
             name = ast.unparse(st.exc) if st.exc is not None else None
             if name is None:
                 raise Unsupported("bare raise")
-            name = name.split("(")[0]
+            name = name.split("(")[0].split(".")[0]
             self.raise_(p.guard, name, env, handlers)
             return []
         if isinstance(st, ast.Return):
             if st.value is not None and not (isinstance(st.value, ast.Constant) and st.value.value is None):
-                raise Unsupported("return with value")
+                # the returned value itself is not modelled, only whether evaluating it raises
+                for g, v in self.ev(st.value, env):
+                    gg = z3.And(p.guard, g)
+                    if isinstance(v, PyRaise):
+                        self.raise_(gg, v.name, env, handlers)
+                    else:
+                        self.outcomes.append((gg, "return"))
+                return []
             self.outcomes.append((p.guard, "return"))
             return []
         if isinstance(st, ast.Try):
@@ -341,6 +356,32 @@ def multiple_of_outcomes(value_kind, m_kind):
     else:
         dom += [m > 0]
     return v, m, z3.And(*dom), outcomes
+
+
+def number_construct_outcomes():
+    """symbolic outcomes of the CURRENT Number.construct for an int value (float values are returned as is)"""
+    from statham.schema.elements.numeric import Number
+
+    v = z3.Int("v")
+    it = Interp(Number.construct, None)
+    argname = [a.arg for a in it.tree.args.args][1]
+    env = {argname: Val("int", v)}
+    for a in it.tree.args.args[2:]:
+        env[a.arg] = Val("bool", z3.BoolVal(True))  # the property argument: opaque
+    return v, it.run(env)
+
+
+def number_construct_concrete(v):
+    from statham.schema.elements.numeric import Number
+    from statham.schema.exceptions import ValidationError
+
+    try:
+        Number()(v)
+        return "return"
+    except ValidationError:
+        return "raise:ValidationError"
+    except Exception as exc:  # noqa
+        return "raise:" + type(exc).__name__
 
 
 def concrete_outcome(v, m):
@@ -465,6 +506,24 @@ def totality_obligations(timeout_s=90):
                     rec["counterexample"] = {"value": repr(cv), "multipleOf": repr(cm)}
                     rec["replay"] = concrete_outcome(cv, cm)
                 res.append(rec)
+    return res
+
+
+def number_construct_obligations(timeout_s=60):
+    res = []
+    v, outs = number_construct_outcomes()
+    for g, o in outs:
+        if o in ("return", "raise:ValidationError"):
+            continue
+        r, model, t = solve([g], timeout_s)
+        rec = {"query": f"Number.construct[int value] can {o}", "result": r, "solver_s": round(t, 2)}
+        if model is not None:
+            cv = model_value(model, v, "int")
+            rec["counterexample"] = {"value": repr(cv)}
+            rec["replay"] = number_construct_concrete(cv)
+        res.append(rec)
+    if not res:
+        res.append({"query": "Number.construct[int value]: every path returns or raises ValidationError", "result": "unsat", "solver_s": 0.0})
     return res
 
 
